@@ -628,28 +628,12 @@ Section InferPres.
           now apply R_map.
         + apply R_map; [exact Hk|apply R_refl].
         + apply R_map; [exact Hk|apply R_refl].
-      - match goal with |- context [?G ts] =>
-          lazymatch type of G with
-          | list ty -> (list ty * iout)%type => set (GG := G)
-          end end.
-        assert (HG : Forall2 R ts (fst (GG ts))); [|destruct (GG ts) as [ts' o]; cbn [fst] in *; now apply R_tuple].
-        induction IH as [|t0 ts0 H0 Hts IHts]; [constructor|].
-        assert (EG : GG (t0 :: ts0) =
-                     match (if inferable_ty t0 then infer_st zone tl t0 s else (t0, IOk)) with
-                     | (t0', IOk) => let '(r', o') := GG ts0 in (t0' :: r', o')
-                     | (t0', o) => (t0' :: ts0, o)
-                     end) by reflexivity.
-        rewrite EG. clear EG.
-        assert (H1 : R t0 (fst (if inferable_ty t0 then infer_st zone tl t0 s else (t0, IOk))))
-          by (destruct (inferable_ty t0); [apply H0|apply R_refl]).
-        destruct (if inferable_ty t0 then infer_st zone tl t0 s else (t0, IOk)) as [t0' o0]. cbn [fst] in H1.
-        assert (Hrefl : Forall2 R ts0 ts0) by (clear -R_refl; induction ts0; constructor; [apply R_refl|assumption]).
-        destruct o0.
-        + destruct (GG ts0) as [r' o']. cbn [fst] in *. constructor; assumption.
-        + cbn [fst]. constructor; [exact H1|exact Hrefl].
-        + cbn [fst]. constructor; [exact H1|exact Hrefl].
-      - destruct (inferable_ty t); [|apply R_refl].
-        specialize (IH s). destruct (infer_st zone tl t s) as [d' o]. cbn [fst] in *. now apply R_named.
+      - change (R (TTuple ts) (fst (infer_st zone tl (TTuple ts) s))). rewrite infer_st_tuple.
+        destruct (existsb inferable_ty ts); [|apply R_refl]. destruct (negb _); [apply R_refl|].
+        pose proof (tup_infer_rel zone tl R R_refl ts IH (split_type_args (elem s))) as HG.
+        destruct (tup_infer zone tl ts _) as [ts' o]; cbn [fst] in *; now apply R_tuple.
+      - destruct (inferable_ty t); [|apply R_refl]. destruct (cut_prefix _ s) as [e|]; [|apply R_refl].
+        specialize (IH e). destruct (infer_st zone tl t e) as [d' o]. cbn [fst] in *. now apply R_named.
     Qed.
   End Rel.
 
